@@ -163,7 +163,20 @@ var _ = sort.Ints
 
 func TestC02RealIngress(t *testing.T) {
 	dir := t.TempDir()
-	world.Run(t, "C02", "real-ingress", world.Scale(80, 400), func(t *rapid.T) c02gen.ScenarioB { return c02gen.GenB(t, world.Scale(8, 20), false) },
+	world.Run(t, "C02", "real-ingress", world.Scale(80, 400), func(t *rapid.T) c02gen.ScenarioB {
+		sc := c02gen.GenB(t, world.Scale(8, 20), false)
+		if rapid.IntRange(0, 2).Draw(t, "readfaults") == 0 {
+			// transient read faults of the DA layer (incl. expired deadlines) on heights that hold blobs of the chain
+			maxDA := uint64(1)
+			for _, pl := range sc.Placements {
+				if pl.DAHeight > maxDA {
+					maxDA = pl.DAHeight
+				}
+			}
+			sc.FetchFaults = c02gen.GenFetchFaults(t, maxDA)
+		}
+		return sc
+	},
 		func(sc c02gen.ScenarioB) world.Verdict {
 			return c02gen.RunB(sc, dir, "C02",
 				func(r *c02gen.BRun, when string) *world.Problem { return r.F.CheckPrefix(when, true) },
